@@ -131,6 +131,17 @@ func (m *msi) getPendingRequestsToCore(id int) map[msiCommandRequest]*msiCommand
 	return requests
 }
 
+// hasCommand tells whether a snoop command for a line is still in progress
+// (its requester may have been flushed in the meantime).
+func (m *msi) hasCommand(alignedAddr comp.AlignedAddress) bool {
+	for req := range m.commands {
+		if req.alignedAddr == alignedAddr && (req.request == l1Evict || req.request == l1WriteBack) {
+			return true
+		}
+	}
+	return false
+}
+
 // l1RLock is a lock for read
 // Workflows:
 // Pre-actions: pendings
@@ -138,6 +149,9 @@ func (m *msi) getPendingRequestsToCore(id int) map[msiCommandRequest]*msiCommand
 // Post-action: msiCommandInfo callback
 func (m *msi) l1RLock(id int, addrs []int32) (msiResponse, func(), *comp.Sem) {
 	alignedAddr := getL1AlignedMemoryAddress(addrs)
+	if m.hasCommand(alignedAddr) {
+		return msiResponse{wait: true}, noop, nil
+	}
 	state := m.getL1State(id, addrs)
 	switch state {
 	case invalid:
@@ -196,6 +210,9 @@ func (m *msi) l1ReadRequest(id int, alignedAddr comp.AlignedAddress) []*msiComma
 // Post-action: msiCommandInfo callback
 func (m *msi) l1Lock(id int, addrs []int32) (msiResponse, func(), *comp.Sem) {
 	alignedAddr := getL1AlignedMemoryAddress(addrs)
+	if m.hasCommand(alignedAddr) {
+		return msiResponse{wait: true}, noop, nil
+	}
 	state := m.getL1State(id, addrs)
 	switch state {
 	case invalid:
